@@ -7,6 +7,9 @@
 #ifndef VC_T
 #define VC_T 8
 #endif
+#ifndef VC_T_LO
+#define VC_T_LO 2 /* lowest thread count of this instance (VC_T_LO == VC_T: one concrete count) */
+#endif
 #ifndef VC_MAXROWS
 #define VC_MAXROWS ((size_t)1 << 20)
 #endif
@@ -32,7 +35,7 @@ static void mon_decode(void *(*fn)(void *), void *arg)
 void h_slice_CalculateDistance(void)
 {
   size_t r1 = VC_IN_SIZE(), r2 = VC_IN_SIZE(), cols = VC_IN_SIZE(), nth = VC_IN_SIZE(), method = VC_IN_SIZE();
-  VC_ASSUME(r1 <= VC_MAXROWS && r2 <= VC_MAXROWS && cols <= VC_MAXROWS && nth >= 2 && nth <= VC_T && method <= 3);
+  VC_ASSUME(r1 <= VC_MAXROWS && r2 <= VC_MAXROWS && cols <= VC_MAXROWS && nth >= VC_T_LO && nth <= VC_T && method <= 3);
   matrix m1, m2, d;
   m1.row = r1; m1.col = cols; m1.data = NULL;
   m2.row = r2; m2.col = cols; m2.data = NULL;
@@ -48,7 +51,7 @@ void h_slice_CalculateDistance(void)
   void h_slice_##F(void)                                                                \
   {                                                                                     \
     size_t r = VC_IN_SIZE(), cols = VC_IN_SIZE(), nth = VC_IN_SIZE();                   \
-    VC_ASSUME(r <= VC_MAXROWS && cols <= VC_MAXROWS && nth >= 2 && nth <= VC_T);        \
+    VC_ASSUME(r <= VC_MAXROWS && cols <= VC_MAXROWS && nth >= VC_T_LO && nth <= VC_T);        \
     matrix m; dvector d;                                                                \
     m.row = r; m.col = cols; m.data = NULL;                                             \
     d.size = 0; d.data = NULL;                                                          \
